@@ -26,6 +26,7 @@ INVARIANT LawListAnswers
 INVARIANT LawLGUnorderedMany
 INVARIANT LawLGContiguous
 INVARIANT LawLGReversal
+INVARIANT LawLNest
 INVARIANT LawNestedInjective
 INVARIANT LawNestedPrefix
 INVARIANT LawSquareHermitian
